@@ -9,7 +9,7 @@
    reader hands exactly the answer headers to the chase), NameRefEq (NameRef::eq is equality of the
    decoded names), Chase (what the chase returns), RDataRT (the typed decode is the value). *)
 From Coq Require Import ZArith.
-From RsdnsModel Require Import Base GenConst GenCursor GenHeader GenTypes GenTracker GenReader GenSpec Cursor Names Labels Header Tracker RData Reader RecordSet Writer.
+From RsdnsModel Require Import Base GenConst GenCursor GenHeader GenTypes GenTracker GenReader GenSpec Cursor Names Labels Header Tracker RData Reader RecordSet Writer Iter.
 From RsdnsModel.Spec Require Import WireName LinearPass RDataWire.
 From RsdnsModel.Proofs Require Import CursorSafe ListN LabelsSound LabelsComplete SpecExec ParseSpec WriterLayout RoundTrip RecordRT RDataRT NameRefEq TrackerRefine ReaderTotal ReaderRefine Chase FromMsgRefine MessageRT.
 From Coq Require Import ZifyBool ZifyN ZifyNat.
@@ -548,3 +548,70 @@ Proof.
                 ltac:(vm_compute; reflexivity) ltac:(repeat split) ltac:(vm_compute; reflexivity) ltac:(vm_compute; reflexivity)) as E.
   rewrite E; [vm_compute; reflexivity|vm_compute; discriminate].
 Qed.
+
+(* ================================================================ the iterator API, end to end *)
+(* MessageIterator::records() over a message described semantically: exactly the records of known
+   type and class, in wire order, each with its section (by counting), the text of its owner labels,
+   CLASS, TYPE, TTL and its value; records of unknown type or class (described by raw octets or not)
+   are passed over; then the end, without an error. *)
+Section I.
+  Variable msg : list byte.
+  Variables (qs : list squestion) (rs : list srecord) (nq an ns ar e1 e2 : N) (h : header).
+  Hypothesis Hlen : lenN msg <= 65535.
+  Hypothesis H12 : 12 <= lenN msg.
+  Hypothesis Hq : questions_stand msg 12 qs e1.
+  Hypothesis Hr : records_stand msg e1 rs e2.
+  Hypothesis Hcq : lenN qs = nq.
+  Hypothesis Hcnt : lenN rs = an + ns + ar.
+  Hypothesis Bnq : nq <= 65535.
+  Hypothesis Ban : an <= 65535.
+  Hypothesis Bns : ns <= 65535.
+  Hypothesis Bar : ar <= 65535.
+  Hypothesis Hh : h_qd h = nq /\ h_an h = an /\ h_ns h = ns /\ h_ar h = ar.
+
+  Definition iter_wants (x : srecord) : bool := negb (iter_skip_unknown (class_defined (sr_class x)) (type_defined (sr_type x))).
+  (* records the iterator yields are described by their values *)
+  Hypothesis Hval : Forall (fun x => iter_wants x = true -> typed x) rs.
+
+  Fixpoint sem_iter (k : N) (l : list srecord) : list rr :=
+    match l with
+    | [] => []
+    | x :: l' =>
+      if iter_wants x
+      then mkRR (section_of (lin nq an ns ar) k) (text_of_labels (sr_labels x)) (sr_class x) (sr_type x) (sr_ttl x) (sval (sr_data x))
+           :: sem_iter (k + 1) l'
+      else sem_iter (k + 1) l'
+    end.
+
+  Lemma iter_items_sem : forall l p ends k, rstands msg p l ends -> Forall (fun x => iter_wants x = true -> typed x) l ->
+    iter_items msg nq an ns ar k (ritems p l ends) = Some (sem_iter k l).
+  Proof.
+    induction l as [|x l IH]; intros p ends k Hs Hv; destruct ends as [|e ends]; cbn [rstands] in Hs; try contradiction; [reflexivity|].
+    destruct Hs as [Hx Hrest]. inversion Hv as [|? ? Hvx Hvl]; subst. cbn [ritems iter_items sem_iter].
+    unfold skip_it. cbn [ritem a_class a_type a_fits255]. unfold iter_wants in *.
+    destruct (iter_skip_unknown (class_defined (sr_class x)) (type_defined (sr_type x))) eqn:Esk; cbn [negb] in *; [apply IH; assumption|].
+    specialize (Hvx eq_refl). unfold typed in Hvx. destruct (sr_data x) as [a|bs] eqn:Ed; [|contradiction]. cbn [sval].
+    assert (Hdec : decoded msg (ritem p x e) = Some (rdata_val a)).
+    { unfold decoded. assert (Hwc : whole msg (c_with_pos msg (a_type_off (ritem p x e) + 10))) by (split; reflexivity).
+      destruct (standing_record_decodes msg p x e _ a Hx Ed Hwc eq_refl) as (m & Em & Edm).
+      cbn [ritem a_type] in Em |- *. rewrite Em, Edm. reflexivity. }
+    rewrite Hdec, (IH e ends (k + 1) Hrest Hvl). f_equal. f_equal. unfold rr_of. cbn [ritem a_start a_class a_type a_ttl]. f_equal.
+    unfold name_text. destruct Hx as (r & pre & post & (Hex & Hres & _) & _).
+    assert (Es : spec_name msg p = SAccept (sr_labels x) r) by (apply spec_name_accept_iff; split; assumption). rewrite Es. reflexivity.
+  Qed.
+
+  Theorem iterator_end_to_end : iter_records msg h e1 = Ok (sem_iter 0 rs, None).
+  Proof.
+    destruct (message_parsed msg nq an ns ar qs rs e1 e2 Hlen H12 Hq Hr Hcq Hcnt Bnq Ban Bns Bar)
+      as (qends & rends & Hp & L1 & L2 & Sq & Sr).
+    destruct Hh as (E1 & E2 & E3 & E4).
+    apply (iter_records_any msg nq an ns ar _ _ e1 e2 Hp h (sem_iter 0 rs) L2 ltac:(lia) E2 E3 E4 L1).
+    apply iter_items_sem; assumption.
+  Qed.
+End I.
+
+(* non-vacuity: the two-record response of example_chain_msg through the iterator *)
+Lemma example_iterator :
+  iter_records example_chain_msg (mkHeader 4660 33152 1 2 0 0) 19 =
+  Ok ([mkRR 0 [x61; x2e] 1 5 60 (RD_Name 5 [x62; x2e]); mkRR 0 [x62; x2e] 1 1 30 (RD_A 84281096)], None).
+Proof. vm_compute. reflexivity. Qed.
